@@ -11,6 +11,8 @@ EXTENDS QBFTTrace
 CONSTANT DevEagerTieDesync   \* FALSE: the property as stated.  TRUE (deviation cfg, known finding C04-eager-timer-tie-desync):
                              \* one further leader rotation is tolerated for the dedicated zero-latency tie probe
                              \* (a replayed behaviour of QBFTTimed with the eager double-linear timer)
+CONSTANT DevIncLateDesync     \* TRUE (deviation cfg, known finding C04-inc-timer-late-leader-desync): no bound on the decision
+                             \* is demanded of runs with the increasing timer, a late starter and a silent / crashed member
 VARIABLES now, r0, ended
 ttvars == <<vars, tr, l, now, r0, ended>>
 Running(s) == {p \in Honest : s[p].started /\ s[p].running}
@@ -29,8 +31,14 @@ TTEnd == /\ IsEvent("End") /\ UNCHANGED vars /\ ended' = TRUE /\ UNCHANGED <<now
 TTNext == TTReset \/ TTStart \/ TTInput \/ TTTimeout \/ TTDeliver \/ TTCrash \/ TTSilent \/ TTEnd
 TTSpec == TTInit /\ [][TTNext]_ttvars
 IsTieProbe == Has(Trace[1], "script") /\ Trace[1].timer = "eager"
+\* signature of the inc-timer finding: increasing timer, a late starter and a silent / crashed member (the members split into
+\* groups one round apart, none of them a quorum, and the re-arming of the timers keeps them apart)
+IsIncSig == /\ Has(Trace[1], "timer") /\ Trace[1].timer = "inc"
+            /\ \E i \in 1..TLen : Trace[i].ev \in {"Silent", "Crash"}
+            /\ \E i \in 1..TLen : Trace[i].ev = "Start" /\ Trace[i].now > 0
 Slack == IF DevEagerTieDesync /\ IsTieProbe THEN N ELSE 0
-BoundedDecision == ended => \A p \in Running(st) : st[p].decided /\ st[p].dround <= r0 + N + Slack
+BoundedDecision == ended => \/ DevIncLateDesync /\ IsIncSig
+                           \/ \A p \in Running(st) : st[p].decided /\ st[p].dround <= r0 + N + Slack
 AllStartedAtEnd == ended => \A p \in Honest : st[p].running => st[p].started
 TMark == /\ CheckInv("BoundedDecision", BoundedDecision) /\ CheckInv("AllStartedAtEnd", AllStartedAtEnd)
          /\ CheckInv("NoHonestUnjust", NoHonestUnjust)
